@@ -27,8 +27,26 @@ RULE = ("random masks (densities 0.1-0.9, plus single pixels, rings with holes, 
         "normalize_psf on/off (kernel sums +-2^j), exposure times 0.5..1000, Poisson noise-map on/off, noise_if_add_noise_false, seeds; "
         "the same simulator for two images and the first again; then Imaging.apply_mask (fresh / re-masking a masked dataset / the same "
         "mask object edited in place; interior masks and masks touching the frame edge = padded datasets) and the masked dataset's "
-        "convolver. Entry points: Convolver.convolve_image / convolve_image_no_blurring / convolve_mapping_matrix, "
-        "Kernel2D.convolved_array_from / convolved_array_with_mask_from, SimulatorImaging.via_image_from -> apply_mask -> convolver. "
+        "convolver. "
+        "The history also calls the raw-ndarray sibling convolve_image_no_blurring_interpolation and checks every returned structure (paired with "
+        "the mask it was computed for, native view = slim values at the unmasked pixels). Simulator additions: psf omitted (the simulator's own "
+        "identity kernel), image / kernel / mask pixel scales (square and (y,x)-different) and origins varied independently, input images as "
+        "int64 / float32 / list-built / user-subclass / Kernel2D objects, a second image of ANOTHER shape through the same simulator, images "
+        "rescaled by 2^-34..2^30 when no sky is involved, the simulator's settings and every shared default-argument object "
+        "(Imaging's OverSamplingDataset() ...) fingerprinted before/after, an Imaging built DIRECTLY from the simulated arrays and a "
+        "caller-owned kernel (use_normalized_psf default / on / off) -> apply_mask -> apply_over_sampling (explicit / default argument) -> "
+        "convolver, blurring with the PSF the dataset carries, caller's kernel unchanged. "
+        "INPUT-KIND stream: one history per input through image / blurring image / raw slim buffer / mapping matrix / whole-frame array "
+        "given as int64, int32, int8, uint8, bool, float32, Python lists, Fortran-ordered and non-contiguous views (values exactly "
+        "representable in the kind, kernels with quarter or k+-2^-30 entries so that a buffer inheriting the input dtype truncates), "
+        "user subclasses of Mask2D / Array2D / Kernel2D and a Kernel2D used as the image, masks built from bool / int / list input, every "
+        "Kernel2D constructor with checkable contents (no_mask 2-D / slim+shape_native / int / float32, ones, zeros, full on non-square shapes, "
+        "no_blur, normalize=True and .normalized with sums +-2^j), mask / kernel / array pixel scales and origins all different, mapping "
+        "matrices with 0 columns, masks without any unmasked pixel, the all-zero kernel, one mask with 256 unmasked pixels, every call made twice with the same object and the "
+        "argument's contents and dtype compared afterwards. "
+        "Entry points: Convolver.convolve_image / convolve_image_no_blurring / convolve_image_no_blurring_interpolation / convolve_mapping_matrix, "
+        "Kernel2D.convolved_array_from / convolved_array_with_mask_from, SimulatorImaging.via_image_from -> apply_mask -> convolver, "
+        "Imaging(...) -> apply_mask -> apply_over_sampling -> convolver. "
         "Non-trivial = at least 2 unmasked pixels and a kernel with more than one non-zero entry; distinct = distinct JSON input.")
 EXHAUSTIVE = {}
 TRUSTED = ["hand-written Gallina model coq/Model/C03.v (frame tables + scatter loops), tied to /repo by this correspondence run (exact "
@@ -173,6 +191,11 @@ def gen_inputs(tier, rng):
     # the sibling entry point convolve_image_no_blurring_interpolation, and directed rare states (no unmasked pixel, zero kernel)
     for i in range(260 if tier == "thorough" else 26):
         yield gen_kinds(rng, i)
+    # directed rare state: more than 255 unmasked pixels (slim indices that do not fit a small integer type), thin kernels
+    for (H, W, kh, kw) in ([(16, 18, 1, 3), (18, 15, 3, 1), (16, 16, 1, 1)] if tier == "thorough" else [(16, 16, 1, 1)]):
+        m = rand_mask(rng, H, W, kh, kw, "full"); K = rand_kernel(rng, kh, kw, quarters=True); seed = rng.randrange(10 ** 9)
+        for op in ("init", "convolve"):
+            yield {"op": op, "m": m, "K": sk(K), "seed": seed, "sparse": False, "vs": 0, "ks": 0}
 
 IMG_KINDS = ["int64", "f32", "bool", "list", "view", "sub", "kern", "int32", "f64"]
 MAT_KINDS = ["int64", "bool", "f32", "fortran", "view", "uint8", "int8", "f64"]
@@ -711,7 +734,8 @@ def run_kinds(aa, inp):
         raw_v = kind_vals(rng, nun, rk); raw = typed(raw_v, rk) if nun else np.zeros(0, dtype=np.asarray(typed([Fraction(1)], rk)).dtype)
         for rep in range(2):           # twice with the same object
             res = c.convolve_image_no_blurring_interpolation(image=raw)
-            cases.append(f"(KNoBlur {cmask(m)} {cqm(K)} {cqv(raw_v)} {cqv(fracs(res.slim))})")
+            if rep == 0: first = fracs(res.slim); cases.append(f"(KNoBlur {cmask(m)} {cqm(K)} {cqv(raw_v)} {cqv(first)})")
+            elif fracs(res.slim) != first: bad.append("convolve_image_no_blurring_interpolation: a second call with the same object gives another result")
             bad += result_problems(res, m, "convolve_image_no_blurring_interpolation")
             if not same_object_contents(raw, raw_v, rk): bad.append("convolve_image_no_blurring_interpolation modified its argument")
         P = inp["ncols"]
@@ -726,7 +750,8 @@ def run_kinds(aa, inp):
             r = np.asarray(res)
             if r.shape != (nun, P): bad.append(f"blurred mapping matrix shape {r.shape}, expected {(nun, P)}")
             o = [[frac(x) for x in row] for row in r.astype(float)] if r.ndim == 2 else []
-            cases.append(f"(KMatrix {cmask(m)} {cqm(K)} {cqm(Mv)} {cqm(o)})")
+            if rep == 0: cases.append(f"(KMatrix {cmask(m)} {cqm(K)} {cqm(Mv)} {cqm(o)})")
+            elif o != keep[0][1]: bad.append("convolve_mapping_matrix: a second call with the same object gives another result")
             keep.append((res, o))
             if not same_object_contents(Mo, [v for r in Mv for v in r], mk if (nun and P) else "list"): bad.append("convolve_mapping_matrix modified its argument")
         if keep[0][1] != [[frac(x) for x in row] for row in np.asarray(keep[0][0]).astype(float)]: bad.append("an earlier blurred mapping matrix changed after the next call")
